@@ -166,6 +166,7 @@ class RunResult:
     decisions: int
     sched_abort: str | None
     times: list = field(default_factory=list)
+    pending_at_abort: dict = field(default_factory=dict)
 
 
 class Harness:
@@ -390,6 +391,19 @@ class Harness:
         import queue as _q
 
         class RecQueue(_q.Queue):
+            # blocking variants cooperate with the scheduler instead of blocking the OS thread
+            def put(q, item: Any, block: bool = True, timeout: Any = None) -> None:
+                if block:
+                    s.yield_(Pending("q_put", "", alts=lambda: ["go"] if not q.full() else
+                                     (["timeout"] if timeout is not None else [])))
+                _q.Queue.put(q, item, False)
+
+            def get(q, block: bool = True, timeout: Any = None) -> Any:
+                if block:
+                    s.yield_(Pending("q_get", "", alts=lambda: ["go"] if not q.empty() else
+                                     (["timeout"] if timeout is not None else [])))
+                return _q.Queue.get(q, False)
+
             def put_nowait(q, item: Any) -> None:
                 try:
                     _q.Queue.put_nowait(q, item)
@@ -492,7 +506,7 @@ class Harness:
                          states_dir_listing=listing, saves=self.saves, post=post,
                          decisions=s.decisions,
                          sched_abort=None if s.aborted in ("end", "all threads finished") else s.aborted,
-                         times=s.times)
+                         times=s.times, pending_at_abort=dict(s.pending_at_abort))
 
 
 class _Cb:
